@@ -5,7 +5,7 @@ import json, os, subprocess, sys, glob, re
 WT = f"/tmp/seedmx-{os.getpid()}"  # one scratch worktree per invocation (several agents may run this at once)
 env = dict(os.environ, GOFLAGS="-mod=mod", GOPROXY="off", GOSUMDB="off", GOTOOLCHAIN="local")
 def sh(cmd, **kw):
-    return subprocess.run(cmd, shell=True, capture_output=True, text=True, env=env, **kw)
+    return subprocess.run(cmd, shell=True, capture_output=True, text=True, errors="replace", env=env, **kw)
 QUICK_ONLY = "--quick-only" in sys.argv
 if QUICK_ONLY: sys.argv.remove("--quick-only")
 ids = sys.argv[1:] or sorted(os.path.basename(p) for p in glob.glob("/verif/seeded/*"))
